@@ -511,6 +511,8 @@ String File::simplifyPath(const String& path)
       break;
     start = end + 1;
   }
+  if(result.isEmpty() && startsWithSlash)
+    result.append('/');
   return result;
 }
 
